@@ -25,20 +25,20 @@ BAD_KEYS = {
     "identifier": ["1x", "a-b", "a.b", "+", "*"],
     "ipaddr-or-hostname": ["1x", "300.1.1.1", "a/b", "x!", "+", "*"],
 }
-SECTION_NAMES = ["n1", "n2", "N3", "alpha", "Beta", "Stra\u00dfe", "\u039f\u0394\u039f\u03a3"]
+SECTION_NAMES = ["n1", "n2", "N3", "alpha", "Beta", "Stra\u00dfe", "\u039f\u0394\u039f\u03a3", "/Dir/", "a>b"]
 
 GOOD = {
-    "string": ["v", "two words", "x=1", "(p)", "<q>", "# not a comment", "é"],
-    "integer": ["12", "-3", "0", "+7", "1_000"],
+    "string": ["v", "two words", "x=1", "(p)", "<q>", "# not a comment", "é", "col1\tcol2", "a \t b"],
+    "integer": ["12", "-3", "0", "+7", "1_000", "9007199254740993"],
     "boolean": ["yes", "No", "TRUE", "off", "On", "false"],
     "float": ["1.5", "1e3", "-0.25", "7"],
     "port-number": ["80", "65535", "0"],
-    "byte-size": ["10kb", "2MB", "5", "1Gb"],
-    "time-interval": ["10s", "2H", "5", "3d", "4m"],
+    "byte-size": ["10kb", "2MB", "5", "1Gb", "9007199254740993", "18014398509481985kb"],
+    "time-interval": ["10s", "2H", "5", "3d", "4m", "9007199254740993", "36028797018963969d"],
     "identifier": ["abc_1", "_x", "ABC"],
     "basic-key": ["Abc-1", "x.y", "Q"],
     "string-list": ["a b  c", "one", "x\ty"],
-    "inet-address": ["host:80", "80", "[::1]:80", "Host.Example", "1.2.3.4:1"],
+    "inet-address": ["host:80", "80", "[::1]:80", "Host.Example", "1.2.3.4:1", "[FE80::1:2]:8080", "FE80::A"],
     "null": ["anything", "x y"],
     "zcv.dt.evenint": ["2", "40", "-6"],
     "zcv.dtalt.evenint": ["3", "41", "-7"],
@@ -606,7 +606,9 @@ class TextGen:
         close = mixcase(rng, tname)
         if self.p(0.01):
             close = "nosuchtype"
-        return ["<%s%s>" % (tt, nn)] + ["  " + l for l in inner] + ["</%s>" % close]
+        # a name ending in '/' must be kept away from the closing '>' (else it is the empty form)
+        gap = " " if nn.endswith("/") else ""
+        return ["<%s%s%s>" % (tt, nn, gap)] + ["  " + l for l in inner] + ["</%s>" % close]
 
     def text(self):
         rng = self.rng
